@@ -356,6 +356,16 @@ def check(model: Model, run: Run) -> None:
     )
     _r9_timers(model, run, folder)
 
+    # ------------------------------------------------------------------ R10 the code of an error survives the way up
+    run.rule(
+        'C10.R10',
+        'a Notify raised below keeps its code/subcode on the way up: in the reactor, where the body of a `try` can let a Notify '
+        'escape (explicit raises of the resolved callees), the first handler that catches it is not a catch-all that raises '
+        'another, constant Notify - the 2/x, 3/x and 7/x found by the decoders would all be answered with that one code',
+        floor=1,
+    )
+    _r10_relabel(model, run, exc)
+
     run.rule('C10.R5', 'every registered message type is handled or refused in ESTABLISHED: UPDATE and ROUTE-REFRESH have handlers, KEEPALIVE feeds the timer, NOTIFICATION is raised by read_message, anything else (OPEN) must be refused with 5/3', floor=3)
     _r5_types(model, run, folder)
 
@@ -493,6 +503,49 @@ def _r5_types(model: Model, run: Run, folder: Folder) -> None:
                 'a %s received while ESTABLISHED matches no handler of the main loop and is silently ignored; RFC 4271 8.2.2 / '
                 'RFC 6608 want the session closed with NOTIFICATION 5/3' % name.upper(),
             )
+
+
+def _r10_relabel(model: Model, run: Run, exc: ExcFlow) -> None:
+    from ..cfg import handler_names
+
+    n = 0
+    for fi in sorted(model.funcs_in('exabgp/reactor/'), key=lambda f: f.qualname):
+        per_try: dict[int, tuple[ast.Try, set[str]]] = {}
+        for kind, payload, node, ctx in exc.sites(fi):
+            body_of = [t for t, where in ctx if where == 'body']
+            if not body_of:
+                continue
+            if kind == 'raise':
+                labels = set(payload)
+            else:
+                labels = set()
+                for c in payload:
+                    labels |= exc.escapes(c)
+            labels = {l for l in labels if l.startswith('Notify(')}
+            if labels:
+                # the innermost try the site stands in is the one that sees the exception first
+                per_try.setdefault(id(body_of[0]), (body_of[0], set()))[1].update(labels)
+        for t, labels in per_try.values():
+            first = next((h for h in t.handlers if exc.caught_by('Notify', handler_names(h))), None)
+            if first is None:
+                continue
+            n += 1
+            run.analysed(fi)
+            names = handler_names(first)
+            inst = '%s: try at line %d lets %d Notify label(s) through to `except %s`' % (short(fi.qualname), t.lineno, len(labels), ', '.join(names))
+            other = [r for r in walk_no_nested(first) if isinstance(r, ast.Raise) and isinstance(r.exc, ast.Call) and model.call_matches(fi.module, r.exc, 'Notify')]
+            if 'Notify' in names or not other:
+                run.ok(inst, 'the handler names Notify, or raises no other Notify')
+                continue
+            run.violation(
+                fi.qualname,
+                'a Notify raised in the try body is caught by `except %s` and replaced by %s' % (', '.join(names), norm(other[0].exc)[:60]),
+                fi.loc(first),
+                'the body can raise %s; the catch-all handler comes first and raises its own Notify, so every protocol error found '
+                'below is answered with that code instead of its own' % ', '.join(sorted(labels)[:6]),
+            )
+    if n == 0:
+        run.cannot('no try whose body can raise a Notify and whose handlers catch it found in the reactor')
 
 
 def _r9_timers(model: Model, run: Run, folder: Folder) -> None:
